@@ -124,7 +124,9 @@ func (vt *visitedTracer) trace(fn *ssa.Function, present bool) (paths [][]setEve
 	var events []setEvent
 	index := map[string]int{}
 	ex := &an.Explorer{P: vt.p, NoReturn: noReturn, MaxDepth: 3, MaxVisits: 2,
-		Inline: func(g *ssa.Function) bool { return vt.helpers[g] && g != fn && !vt.onCycle[g] }}
+		Inline: func(g *ssa.Function) bool {
+			return (vt.helpers[g] || isForwarder(g)) && g != fn && !vt.onCycle[g]
+		}}
 	ex.AtomSt = func(v ssa.Value, st *an.State) (an.AVal, bool) {
 		switch x := v.(type) {
 		case *ssa.Lookup:
@@ -173,19 +175,19 @@ func (vt *visitedTracer) trace(fn *ssa.Function, present bool) (paths [][]setEve
 			}
 		case ssa.CallInstruction:
 			if vt.seedURL >= 0 && an.ShortCallee(x.Common()) == "pkg/utils.IsURL" {
-				return rec(setEvent{kind: "url", key: st.Root(x.Common().Args[0]), site: in})
+				return rec(setEvent{kind: "url", key: rootThroughConversions(st, x.Common().Args[0]), site: in})
 			}
 			if vt.sites[in] {
 				ev := setEvent{kind: "call", site: in, joins: map[int][]ssa.Value{}, alts: map[int][]ssa.Value{}}
 				for i, a := range x.Common().Args {
-					r := st.Root(a)
+					r := rootThroughConversions(st, a)
 					ev.args = append(ev.args, r)
 					for _, alt := range an.CollectedFieldSources(r) {
 						ev.alts[i] = append(ev.alts[i], st.Root(alt))
 					}
 					if jc, ok := r.(*ssa.Call); ok && (an.ShortCallee(&jc.Call) == "path.Join" || an.ShortCallee(&jc.Call) == "path/filepath.Join") {
 						for _, el := range an.VariadicElems(jc.Call.Args[0]) {
-							ev.joins[i] = append(ev.joins[i], st.Root(el))
+							ev.joins[i] = append(ev.joins[i], rootThroughConversions(st, el))
 						}
 					}
 				}
@@ -361,4 +363,61 @@ func heldSetProv(st *an.State, m ssa.Value) string {
 		}
 	}
 	return own
+}
+
+// isForwarder: a small function of the module that only hands its arguments on to one other function and returns
+// what comes back (a method of a named string type wrapping path.Join, say): exploring it in place costs nothing
+// and lets the call inside be seen for what it is.
+func isForwarder(g *ssa.Function) bool {
+	if g == nil || g.Blocks == nil || len(g.Blocks) != 1 || !an.InModule(g) {
+		return false
+	}
+	calls := 0
+	for _, in := range g.Blocks[0].Instrs {
+		switch x := in.(type) {
+		case *ssa.Call:
+			if _, isB := x.Call.Value.(*ssa.Builtin); !isB {
+				calls++
+			}
+		case *ssa.Store:
+			// (the argument list of a variadic call is stored into a local array)
+			ia, ok := x.Addr.(*ssa.IndexAddr)
+			if !ok {
+				return false
+			}
+			if _, isLocal := ia.X.(*ssa.Alloc); !isLocal {
+				return false
+			}
+		case *ssa.Go, *ssa.Defer, *ssa.MapUpdate, *ssa.Send:
+			return false
+		}
+	}
+	return calls == 1 && len(g.Blocks[0].Instrs) <= 16
+}
+
+// rootThroughConversions is State.Root that also looks through conversions between a string and a named string
+// type (location(v), string(l)): the value is the same text.
+func rootThroughConversions(st *an.State, v ssa.Value) ssa.Value {
+	r := st.Root(v)
+	for i := 0; i < 8; i++ {
+		switch x := r.(type) {
+		case *ssa.Convert:
+			if isStringType(x.Type()) && isStringType(x.X.Type()) {
+				r = st.Root(x.X)
+				continue
+			}
+		case *ssa.ChangeType:
+			if isStringType(x.Type()) && isStringType(x.X.Type()) {
+				r = st.Root(x.X)
+				continue
+			}
+		}
+		break
+	}
+	return r
+}
+
+func isStringType(t types.Type) bool {
+	b, ok := t.Underlying().(*types.Basic)
+	return ok && b.Info()&types.IsString != 0
 }
